@@ -624,11 +624,44 @@ static const std::vector<std::string> BAD_CLEN = {"-1", "18446744073709551615", 
 static const std::vector<std::string> BAD_STATUS = {"99", "600", "-1", "2147483648", "99999999999", "abc", "", "1e2", "0200", " 20"};
 static const std::vector<std::string> BAD_VERSION = {"2.0", "0.9", "1.", ".1", "1.1.1", "x.y", "-1.1", "1.99999999999"};
 
-static Outcome run_c08(const Case &c) {
+// libFuzzer input -> structured case (also used to replay fuzz artifacts through sub "c08": op "fz #bytes").
+// Integral parameters are taken from the END of the input, the server's byte stream is the front.
+static Case decode_fuzz(const std::string &in) {
+  std::string d = in;
+  auto take = [&](unsigned mod) -> unsigned {
+    if (d.empty()) return 0;
+    unsigned v = (unsigned char)d.back();
+    d.pop_back();
+    return v % mod;
+  };
+  Case c;
+  unsigned lim = take(8), head = take(2), endk = take(3), hold = take(2), nseg = take(5);
+  c.push_back(Op("rq", {head ? 1 : 0, 1, 3, 2, -1, 5}));
+  static const int64_t SEGLEN[] = {1, 2, 3, 7, 16, 100, 4095, 4096, 4097, 0};
+  for (unsigned i = 0; i < nseg; i++) {
+    unsigned l = take(10), k = take(8);
+    c.push_back(Op("sg", {SEGLEN[l], (int64_t)(k == 7 ? 1000 : 0), (int64_t)(k == 5 ? 1 : k == 6 ? 2 : 0)}));
+  }
+  c.push_back(Op("end", {(int64_t)endk}));
+  static const int64_t LIMS[] = {0, 1, 2, 5, 100, 4096, 1 << 20};
+  if (lim == 7)
+    c.push_back(Op("lim", {3, 0}));
+  else
+    c.push_back(Op("lim", {6, LIMS[lim]}));
+  if (hold) c.push_back(Op("hold"));
+  c.push_back(Op("raw", {}, d));
+  return c;
+}
+
+static Outcome run_c08(const Case &c0) {
   Outcome o;
   Ctx x;
   x.o = &o;
   X = &x;
+  Case cdec;
+  for (auto &op : c0)
+    if (op.k == "fz") cdec = decode_fuzz(op.b);
+  const Case &c = cdec.empty() ? c0 : cdec;
   Built b = build(c);
   Resp &r = b.resp;
   bool bodiless = b.req.method == "HEAD" || r.status == 204 || r.status == 304;
@@ -772,6 +805,20 @@ static rc::Gen<Case> gen_c08(int tier) {
   });
 }
 
+#ifdef C08_FUZZ
+// libFuzzer entry: the semantic oracle of sub "c08" runs in-process on every input; leaks are LSan's job here.
+extern "C" int LLVMFuzzerTestOneInput(const uint8_t *data, size_t size) {
+  Case c;
+  c.push_back(Op("fz", {}, std::string((const char *)data, size)));
+  Outcome o = run_c08(c);
+  if (!o.ok) {
+    fprintf(stderr, "C08-ORACLE-FAILURE sig=%s msg=%s\n", o.sig.c_str(), o.msg.c_str());
+    fflush(stderr);
+    __builtin_trap();
+  }
+  return 0;
+}
+#else
 int main(int argc, char **argv) {
   std::vector<Sub> subs;
   Sub s9{"c09",
@@ -801,3 +848,4 @@ int main(int argc, char **argv) {
   subs.push_back(s8);
   return pbt_main(argc, argv, subs);
 }
+#endif
